@@ -141,7 +141,7 @@ def determine (n1 n2 : Str) (short : Bool) : Except Err Str :=
       let x := accVal t1
       let y := accVal t2
       if x = y then pure (if short then s "1" else s "major unison")
-      else if x < y then pure (if short then s "#1" else s "augmented unison")
+      else if x < y then pure (if short then List.replicate (y - x).toNat '#' ++ s "1" else s "augmented unison")
       else if x - y = 1 then pure (if short then s "b1" else s "minor unison")
       else pure (if short then s "bb1" else s "diminished unison")
     else
